@@ -10,6 +10,7 @@
 //!        U<q> suspend+await (resumer kept)   u<q> suspend, the future is only awaited when R / r needs the resumer   R resume   C<q> suspend+await and hand the resumer to whoever executes R<q>   R<q> resume object q's suspension from THIS caller (waits until the resumer has been handed over)   r drop the resumer
 //!        E<e> fire event   O<g> open gate   X<q> drop this program's handle of object q
 //!        I<q>k<k> pipe_in stream k into object q   J<q>k<k>d<d> pipe stream k through q (depth d, 0 = default); output kept by the caller
+//!        c<k>-<k2> declares that the closure of the pipe reading stream k owns a closer of stream k2 (released closure => stream k2 ends)
 //!        k<q> a job scheduled on object q drops the caller's output stream
 //!        j<k>n<n> produce n GATED items (their processing waits until the consumer has received every earlier item)
 //!        g<k>n<n> produce n SLOW items (their processing yields co-operatively once, holding the object across the yield)   G<k>n<n> produce n items on stream k   H<k> end stream k   N<n> consume n outputs (0 = until the end)   K drop the output stream
@@ -53,6 +54,9 @@ pub enum Op {
     Pipe(usize, usize, usize),
     Produce(usize, usize),
     ProduceSlow(usize, usize),
+    /// `c<k>-<k2>`: declaration (no run-time effect of its own): the closure of the pipe that reads stream k owns a closer of stream k2 -
+    /// when that closure is released, stream k2 ends (chained pipes)
+    ChainClose(usize, usize),
     /// `k<q>`: a job scheduled on object q drops this caller's output stream (the stream is dropped from inside the object's own queue)
     DropStreamInJob(usize),
     /// `j<k>n<n>`: items whose processing waits until the consumer has received every earlier item of the stream
@@ -70,7 +74,7 @@ pub enum Op {
 
 #[derive(Clone, Debug, PartialEq)]
 pub struct Program { pub nq: usize, pub pool: usize, pub nev: usize, pub ngates: usize, pub callers: Vec<Vec<Op>> }
-impl Program { pub fn nstreams(&self) -> usize { self.callers.iter().flatten().map(|o| match o { Op::PipeIn(_, k) | Op::Pipe(_, k, _) | Op::Produce(k, _) | Op::ProduceSlow(k, _) | Op::ProduceGated(k, _) | Op::CloseStream(k) | Op::AwaitRelease(k) => k + 1, _ => 0 }).max().unwrap_or(0) } }
+impl Program { pub fn nstreams(&self) -> usize { self.callers.iter().flatten().map(|o| match o { Op::PipeIn(_, k) | Op::Pipe(_, k, _) | Op::Produce(k, _) | Op::ProduceSlow(k, _) | Op::ProduceGated(k, _) | Op::CloseStream(k) | Op::AwaitRelease(k) => k + 1, Op::ChainClose(k, k2) => k.max(k2) + 1, _ => 0 }).max().unwrap_or(0) } }
 
 impl Op {
     pub fn obj(&self) -> Option<usize> {
@@ -131,6 +135,7 @@ pub fn fmt_op(o: &Op) -> String {
         Op::CloseStream(k) => format!("H{}", k),
         Op::Consume(n) => format!("N{}", n),
         Op::DropStream => "K".into(),
+        Op::ChainClose(k, k2) => format!("c{}-{}", k, k2),
         Op::DropStreamInJob(q) => format!("k{}", q),
         Op::AwaitRelease(k) => format!("Z{}", k),
         Op::Noise(c) => format!("Q{}", c),
@@ -239,6 +244,7 @@ fn parse_op(cs: &[char], i: &mut usize) -> Result<Op, String> {
         'H' => Op::CloseStream(parse_num(cs, i)?),
         'N' => Op::Consume(parse_num(cs, i)?),
         'K' => Op::DropStream,
+        'c' => { let k = parse_num(cs, i)?; expect_ch(cs, i, '-')?; Op::ChainClose(k, parse_num(cs, i)?) }
         'k' => Op::DropStreamInJob(parse_num(cs, i)?),
         'Z' => Op::AwaitRelease(parse_num(cs, i)?),
         'Q' => Op::Noise(parse_num(cs, i)?),
